@@ -84,9 +84,15 @@ def run_unit(unit, defines=None, vacuity=False, rlimit=None, seed=None, tag='mai
         res['wall_s'] = time.time() - t0
         return res
     fname = 'u_%s_%s.rs' % (unit, tag)
+    if os.environ.get('VERIF_PARALLEL') == '1':
+        # several checks running at once (tools/selftest.py): the file name carries a digest of its content, so two processes never
+        # write different text to one path
+        fname = 'u_%s_%s_%s.rs' % (unit, tag, hashlib.sha256(asm['text'].encode()).hexdigest()[:10])
     path = os.path.join(BUILD, fname)
-    with open(path, 'w') as f:
+    tmp_path = path + '.%d.tmp' % os.getpid()
+    with open(tmp_path, 'w') as f:
         f.write(asm['text'])
+    os.replace(tmp_path, path)
     # Result cache: Verus is a function of the assembled text (which contains the text extracted from /repo's current tree) and its flags.
     # Several property checks share units; an identical file with identical flags is not verified twice. VERIF_NO_CACHE=1 disables it.
     ckey = hashlib.sha256((asm['text'] + '|%s|%s|%s|%s' % (rlimit, multiple_errors, only_fn, fname)).encode()).hexdigest()
@@ -312,7 +318,9 @@ def run_unit(unit, defines=None, vacuity=False, rlimit=None, seed=None, tag='mai
     res['wall_s'] = time.time() - t0
     res['verify_wall_s'] = res['wall_s']
     try:
-        json.dump(res, open(cpath, 'w'))
+        with open(cpath + '.%d.tmp' % os.getpid(), 'w') as f_:
+            json.dump(res, f_)
+        os.replace(cpath + '.%d.tmp' % os.getpid(), cpath)
     except Exception:
         pass
     return res
